@@ -279,9 +279,13 @@ func (idx *HNSWIndex) Add(vector VectorNode) error {
 		return nil
 	}
 
+	// Register the node before linking it: pruneConnections looks every
+	// neighbour up in idx.nodes and would otherwise drop the back-link to a
+	// node that is not registered yet.
+	idx.nodes[id] = node
+
 	// Insert into graph
 	idx.insertNode(node)
-	idx.nodes[id] = node
 
 	idx.mu.Unlock()
 	return nil
